@@ -5,7 +5,7 @@
    headers, encoded record - for keys and values of up to 128 MiB together (the bound is explicit: the
    estimate counts one header per 32768 bytes, the writer needs one per 32761). *)
 From Coq Require Import ZArith Lia ZifyN ZifyNat ZifyBool.
-From KV Require Import Bytes GenConsts Chunk Record Engine Script BytesLemmas ChunkProofs FramingProofs FileProofs EngineFiles.
+From KV Require Import Bytes GenConsts Chunk Record Engine Script BytesLemmas ChunkProofs FramingProofs FileProofs EngineFiles AMapLemmas EngineInv EngineBatch EngineRefine.
 Open Scope N_scope.
 Ltac Zify.zify_post_hook ::= Z.div_mod_to_equations.
 
@@ -144,3 +144,543 @@ Proof.
   rewrite Hsize. unfold n. split; [lia|]. split; [lia|]. split; [intros Hne; specialize (P Hne); lia|]. exists out. split; assumption.
 Qed.
 
+(* ---- the limit ---------------------------------------------------------------------------------------- *)
+Definition single (f : lfile) : Prop :=
+  match lf_recs f with
+  | [_] => True
+  | [_; (s, _)] => r_type s = rt_BatchFinished
+  | _ => False
+  end.
+(* a file that holds records has a positive size; it respects the limit or holds a single record *)
+Definition FL (fs : N) (f : lfile) : Prop :=
+  (lf_recs f = [] \/ 0 < lf_size f) /\ (lf_size f <= fs \/ single f).
+Definition FLdb (d : db) : Prop :=
+  FL (c_fsize (d_cfg d)) (d_active d) /\ forall i f, In (i, f) (d_older d) -> FL (c_fsize (d_cfg d)) f.
+
+Lemma FL_same fs f g : lf_recs g = lf_recs f -> lf_size g = lf_size f -> FL fs f -> FL fs g.
+Proof. unfold FL, single. intros -> ->. auto. Qed.
+
+Lemma in_older_set o : forall id f i g, In (i, g) (older_set o id f) -> (i, g) = (id, f) \/ In (i, g) o.
+Proof.
+  induction o as [|[j h] o IH]; intros id f i g Hin; cbn [older_set] in Hin.
+  - destruct Hin as [H|[]]. left. symmetry. exact H.
+  - destruct (j =? id) eqn:E.
+    + destruct Hin as [H|H]; [left; symmetry; exact H|right; right; exact H].
+    + destruct (id <? j).
+      * destruct Hin as [H|H]; [left; symmetry; exact H|right; exact H].
+      * destruct Hin as [H|H]; [right; left; exact H|]. destruct (IH _ _ _ _ H) as [A|A]; [left; exact A|right; right; exact A].
+Qed.
+
+Lemma db_rotate_FL d d' evs : FLdb d -> db_rotate d = (d', evs) ->
+  FLdb d' /\ lf_size (d_active d') = 0 /\ lf_recs (d_active d') = [] /\ d_cfg d' = d_cfg d.
+Proof.
+  intros [Ha Ho] Hr. unfold db_rotate in Hr.
+  destruct (h_sync_same (FData (d_active_id d)) (d_active d)) as [S1 S2].
+  destruct (h_sync (FData (d_active_id d)) (d_active d)) as [a ev1]. cbn [fst] in *.
+  destruct (h_open_new (io_of d) (FData (d_active_id d + 1))) as [O1 O2].
+  destruct (h_open (io_of d) (FData (d_active_id d + 1)) false lf_empty) as [n ev2]. cbn [fst] in *.
+  injection Hr as <- <-. unfold FLdb. cbn [d_active d_cfg d_older].
+  split; [|split; [exact O2|split; [exact O1|reflexivity]]].
+  split.
+  - split; [left; exact O1|left; rewrite O2; lia].
+  - intros i0 f0 Hin. apply in_older_set in Hin. destruct Hin as [E|Hin]; [|exact (Ho i0 f0 Hin)].
+    injection E as -> ->. exact (FL_same _ _ _ S1 S2 Ha).
+Qed.
+
+Lemma FLdb_set_active d a : FLdb d -> FL (c_fsize (d_cfg d)) a -> FLdb (set_active d (d_active_id d) a).
+Proof. intros [_ Ho] Ha. split; [exact Ha|exact Ho]. Qed.
+
+(* the file-level core of every append: given where the file stands, what it looks like afterwards *)
+Lemma FL_after_append fs f f' (sum : N) (out : list (record * pos)) :
+  FL fs f -> lf_size f <= lf_size f' -> lf_size f' <= lf_size f + sum -> (out <> [] -> 0 < lf_size f') ->
+  (out = [] -> lf_size f' = lf_size f) ->
+  lf_recs f' = lf_recs f ++ out ->
+  (lf_size f + sum <= fs \/ (lf_size f = 0 /\ (length out <= 1)%nat)) ->
+  FL fs f'.
+Proof.
+  intros [Hz Hl] G1 G2 Gp Hnil Hrecs Hcase. split.
+  - destruct out as [|x out]; [|right; apply Gp; discriminate].
+    rewrite app_nil_r in Hrecs. destruct Hz as [Hz|Hz]; [left; congruence|right; lia].
+  - destruct Hcase as [Hfit|[Hzero Hone]]; [left; lia|].
+    destruct Hz as [Hz|Hz]; [|lia]. rewrite Hz in Hrecs. cbn [app] in Hrecs.
+    destruct out as [|x [|y out]]; [left; rewrite (Hnil eq_refl); lia| |cbn in Hone; lia].
+    right. unfold single. rewrite Hrecs. exact I.
+Qed.
+
+(* appendLogRecord keeps the limit *)
+Lemma db_append_FL d r d' p evs : FLdb d -> rec_small r -> db_append d r = (d', p, evs) -> FLdb d' /\ d_cfg d' = d_cfg d.
+Proof.
+  intros HF Hs Ha. unfold db_append in Ha.
+  set (est := disk_size_estimate (len (r_key r)) (len (r_value r))) in *.
+  assert (Hcore : forall d1, FLdb d1 -> d_cfg d1 = d_cfg d ->
+            (lf_size (d_active d1) + est <= c_fsize (d_cfg d) \/ (lf_size (d_active d1) = 0 /\ lf_recs (d_active d1) = [])) ->
+            forall a p0 ev2, lf_append (io_of d1) (FData (d_active_id d1)) (d_active_id d1) (d_active d1) r = (a, p0, ev2) ->
+            FL (c_fsize (d_cfg d1)) a).
+  { intros d1 HF1 Hc Hcase a p0 ev2 Eapp. destruct (lf_append_growth _ _ _ _ _ _ _ _ Hs Eapp) as (G1 & G2 & G3 & G4).
+    rewrite Hc. apply (FL_after_append _ (d_active d1) a (rec_est r) [(r, p0)]); try assumption.
+    - rewrite <- Hc. exact (proj1 HF1).
+    - intros _. exact G4.
+    - discriminate.
+    - unfold rec_est. fold est. destruct Hcase as [A|[A _]]; [left; exact A|right; split; [exact A|cbn; lia]]. }
+  destruct (c_fsize (d_cfg d) <? lf_size (d_active d) + est) eqn:Efit.
+  - destruct (db_rotate d) as [d1 ev1] eqn:Er. destruct (db_rotate_FL d d1 ev1 HF Er) as (HF1 & Z1 & Z2 & Hc).
+    destruct (lf_append (io_of d1) (FData (d_active_id d1)) (d_active_id d1) (d_active d1) r) as [[a p0] ev2] eqn:Eapp.
+    pose proof (Hcore d1 HF1 Hc (or_intror (conj Z1 Z2)) a p0 ev2 Eapp) as Hfa.
+    destruct ((c_sync (d_cfg d1) =? sync_Always) || ((c_sync (d_cfg d1) =? sync_Threshold) && (c_bps (d_cfg d1) <=? d_bytes_write d1 + p_size p0))).
+    + destruct (h_sync_same (FData (d_active_id d1)) a) as [S1 S2].
+      destruct (h_sync (FData (d_active_id d1)) a) as [a' ev3]. cbn [fst] in *. injection Ha as <- <- <-.
+      split; [|exact Hc]. apply (FLdb_set_active d1 a' HF1). exact (FL_same _ _ _ S1 S2 Hfa).
+    + injection Ha as <- <- <-. split; [|exact Hc]. exact (FLdb_set_active d1 a HF1 Hfa).
+  - apply N.ltb_ge in Efit.
+    destruct (lf_append (io_of d) (FData (d_active_id d)) (d_active_id d) (d_active d) r) as [[a p0] ev2] eqn:Eapp.
+    pose proof (Hcore d HF eq_refl (or_introl Efit) a p0 ev2 Eapp) as Hfa.
+    destruct ((c_sync (d_cfg d) =? sync_Always) || ((c_sync (d_cfg d) =? sync_Threshold) && (c_bps (d_cfg d) <=? d_bytes_write d + p_size p0))).
+    + destruct (h_sync_same (FData (d_active_id d)) a) as [S1 S2].
+      destruct (h_sync (FData (d_active_id d)) a) as [a' ev3]. cbn [fst] in *. injection Ha as <- <- <-.
+      split; [|reflexivity]. apply (FLdb_set_active d a' HF). exact (FL_same _ _ _ S1 S2 Hfa).
+    + injection Ha as <- <- <-. split; [|reflexivity]. exact (FLdb_set_active d a HF Hfa).
+Qed.
+
+(* ---- reads change no file's size or records -------------------------------------------------------- *)
+Lemma older_get_in o : forall id f, older_get o id = Some f -> In (id, f) o.
+Proof.
+  induction o as [|[j h] o IH]; intros id f H; cbn [older_get] in H; [discriminate|].
+  destruct (j =? id) eqn:E; [apply N.eqb_eq in E; injection H as <-; subst j; left; reflexivity|right; apply IH; exact H].
+Qed.
+
+Lemma db_read_FL d p d' v evs : FLdb d -> db_read d p = (d', v, evs) -> FLdb d' /\ d_cfg d' = d_cfg d.
+Proof.
+  intros [Ha Ho] Hr. unfold db_read in Hr. destruct (p_fid p =? d_active_id d).
+  - set (sp := read_span (d_active d) p) in *.
+    destruct (h_read_same (io_of d) (FData (d_active_id d)) (d_active d) (fst sp) (snd sp)) as [R1 R2].
+    destruct (h_read (io_of d) (FData (d_active_id d)) (d_active d) (fst sp) (snd sp)) as [a ev]. cbn [fst] in *.
+    assert (HF : FLdb (set_active d (d_active_id d) a)) by (split; [exact (FL_same _ _ _ R1 R2 Ha)|exact Ho]).
+    destruct (lf_lookup (lf_recs a) (p_bid p) (p_off p)); injection Hr as <- _ _; split; try exact HF; reflexivity.
+  - destruct (older_get (d_older d) (p_fid p)) as [f|] eqn:Eg.
+    + set (sp := read_span f p) in *.
+      destruct (h_read_same (io_of d) (FData (p_fid p)) f (fst sp) (snd sp)) as [R1 R2].
+      destruct (h_read (io_of d) (FData (p_fid p)) f (fst sp) (snd sp)) as [f' ev]. cbn [fst] in *.
+      assert (HF : FLdb (set_older d (older_set (d_older d) (p_fid p) f'))).
+      { split; [exact Ha|]. cbn [d_older set_older d_cfg]. intros i g Hin. apply in_older_set in Hin.
+        destruct Hin as [E|Hin]; [|exact (Ho i g Hin)]. injection E as -> ->.
+        exact (FL_same _ _ _ R1 R2 (Ho _ _ (older_get_in _ _ _ Eg))). }
+      destruct (lf_lookup (lf_recs f') (p_bid p) (p_off p)); injection Hr as <- _ _; split; try exact HF; reflexivity.
+    + injection Hr as <- _ _. split; [split; assumption|reflexivity].
+Qed.
+
+Lemma db_get_FL d k d' v evs : FLdb d -> db_get d k = (d', v, evs) -> FLdb d' /\ d_cfg d' = d_cfg d.
+Proof.
+  intros HF Hg. unfold db_get in Hg. destruct (len k =? 0); [injection Hg as <- _ _; auto|].
+  destruct (idx_get (d_index d) k) as [p|]; [exact (db_read_FL _ _ _ _ _ HF Hg)|injection Hg as <- _ _; auto].
+Qed.
+
+Lemma db_fold_aux_FL : forall ix d d' r evs, FLdb d -> db_fold_aux d ix = (d', r, evs) -> FLdb d' /\ d_cfg d' = d_cfg d.
+Proof.
+  induction ix as [|[k p] ix IH]; intros d d' r evs HF Hf; cbn [db_fold_aux] in Hf; [injection Hf as <- _ _; auto|].
+  destruct (db_read d p) as [[d1 v] ev1] eqn:Er. destruct (db_read_FL _ _ _ _ _ HF Er) as [HF1 Hc1].
+  destruct v as [val|e]; [|injection Hf as <- _ _; auto].
+  destruct (db_fold_aux d1 ix) as [[d2 rest] ev2] eqn:Ef. destruct (IH _ _ _ _ HF1 Ef) as [HF2 Hc2].
+  destruct rest; injection Hf as <- _ _; split; try assumption; congruence.
+Qed.
+
+Lemma db_sync_FL d d' evs : FLdb d -> db_sync d = (d', evs) -> FLdb d' /\ d_cfg d' = d_cfg d.
+Proof.
+  intros [Ha Ho] Hs. unfold db_sync in Hs. destruct (h_sync_same (FData (d_active_id d)) (d_active d)) as [S1 S2].
+  destruct (h_sync (FData (d_active_id d)) (d_active d)) as [a ev]. cbn [fst] in *. injection Hs as <- _.
+  split; [split; [exact (FL_same _ _ _ S1 S2 Ha)|exact Ho]|reflexivity].
+Qed.
+
+(* ---- Put and Delete --------------------------------------------------------------------------------- *)
+Definition kv_small (k v : bytes) : Prop := len k + len v <= kv_max.
+
+Lemma mkRec_small ty k v : kv_small k v -> rec_small (mkRec ty k v 0).
+Proof. intros H. split; [exact H|cbn; lia]. Qed.
+
+Lemma db_put_FL d k v d' e evs : FLdb d -> kv_small k v -> db_put d k v = (d', e, evs) -> FLdb d' /\ d_cfg d' = d_cfg d.
+Proof.
+  intros HF Hs Hp. unfold db_put in Hp. destruct (len k =? 0); [injection Hp as <- _ _; auto|].
+  destruct (db_append d (mkRec rt_Normal k v 0)) as [[d1 p] ev] eqn:Ea.
+  destruct (db_append_FL _ _ _ _ _ HF (mkRec_small _ _ _ Hs) Ea) as [HF1 Hc].
+  destruct (idx_put (d_index d1) k p) as [ix old]. injection Hp as <- _ _. split; [exact HF1|exact Hc].
+Qed.
+
+Lemma db_delete_FL d k d' e evs : FLdb d -> len k <= kv_max -> db_delete d k = (d', e, evs) -> FLdb d' /\ d_cfg d' = d_cfg d.
+Proof.
+  intros HF Hs Hp. unfold db_delete in Hp. destruct (len k =? 0); [injection Hp as <- _ _; auto|].
+  destruct (idx_get (d_index d) k) as [p0|]; [|injection Hp as <- _ _; auto].
+  destruct (db_append d (mkRec rt_Deleted k [] 0)) as [[d1 p1] ev] eqn:Ea.
+  assert (Hr : rec_small (mkRec rt_Deleted k [] 0)) by (apply mkRec_small; unfold kv_small; rewrite len_nil; lia).
+  destruct (db_append_FL _ _ _ _ _ HF Hr Ea) as [HF1 Hc].
+  destruct (idx_del (d_index (add_reclaim d1 (p_size p1))) k) as [ix old].
+  destruct old; injection Hp as <- _ _; split; try exact HF1; exact Hc.
+Qed.
+
+(* ---- batches ------------------------------------------------------------------------------------------ *)
+(* what is staged fits the file limit together with the sealing record, or it is a single record *)
+Definition BI (fs : N) (b : batch) : Prop :=
+  sum_est (b_staged b) <= b_cached b /\
+  (sum_est (b_staged b) + maxFinRecord <= fs \/ (length (b_staged b) <= 1)%nat) /\
+  Forall (fun r => len (r_key r) + len (r_value r) <= kv_max) (b_staged b) /\ b_id b < 18446744073709551616.
+
+Lemma apply_staged_files : forall rs d,
+  d_active (apply_staged d rs) = d_active d /\ d_older (apply_staged d rs) = d_older d /\ d_cfg (apply_staged d rs) = d_cfg d /\
+  d_active_id (apply_staged d rs) = d_active_id d.
+Proof.
+  induction rs as [|[r p] rs IH]; intros d; cbn [apply_staged]; [auto|].
+  destruct (r_type r =? rt_Deleted).
+  - destruct (idx_del (d_index d) (r_key r)) as [ix old].
+    match goal with |- context [apply_staged ?X rs] => destruct (IH X) as (A & B & C & D) end.
+    rewrite A, B, C, D. auto.
+  - destruct (idx_put (d_index d) (r_key r) p) as [ix old].
+    match goal with |- context [apply_staged ?X rs] => destruct (IH X) as (A & B & C & D) end.
+    rewrite A, B, C, D. auto.
+Qed.
+
+Definition tag (id : N) (r : record) : record := mkRec (r_type r) (r_key r) (r_value r) id.
+Lemma sum_est_tag id rs : sum_est (map (tag id) rs) = sum_est rs.
+Proof. induction rs as [|r rs IH]; cbn [map sum_est]; [reflexivity|]. rewrite IH. reflexivity. Qed.
+
+Lemma batch_flush_FL d b d' b' evs : FLdb d -> BI (c_fsize (d_cfg d)) b -> batch_flush d b = (d', b', evs) ->
+  FLdb d' /\ d_cfg d' = d_cfg d /\ b' = mkBatch [] 0 (b_committed b) (b_sync b) (b_id b) /\
+  (b_staged b <> [] -> lf_size (d_active d') + maxFinRecord <= c_fsize (d_cfg d) \/ (exists x, lf_recs (d_active d') = [x])).
+Proof.
+  intros HF (Hsum & Hfit & Hsmall & Hid) Hf. unfold batch_flush in Hf.
+  set (fs := c_fsize (d_cfg d)) in *. set (sz := lf_size (d_active d)) in *.
+  change (map (fun r => mkRec (r_type r) (r_key r) (r_value r) (b_id b)) (b_staged b)) with (map (tag (b_id b)) (b_staged b)) in Hf.
+  assert (Htag : Forall rec_small (map (tag (b_id b)) (b_staged b))).
+  { apply Forall_forall. intros r Hin. apply in_map_iff in Hin. destruct Hin as (r0 & <- & Hin0).
+    rewrite Forall_forall in Hsmall. split; [exact (Hsmall r0 Hin0)|exact Hid]. }
+  (* the file that receives the staged records: d1's active file *)
+  assert (Hpre : exists d1 ev1, (if (0 <? sz) && (fs <? sz + b_cached b + maxFinRecord) then db_rotate d else (d, [])) = (d1, ev1) /\
+            FLdb d1 /\ d_cfg d1 = d_cfg d /\
+            (lf_size (d_active d1) + b_cached b + maxFinRecord <= fs \/ (lf_size (d_active d1) = 0 /\ lf_recs (d_active d1) = []))).
+  { destruct ((0 <? sz) && (fs <? sz + b_cached b + maxFinRecord)) eqn:Erot.
+    - destruct (db_rotate d) as [d1 ev1] eqn:Er. destruct (db_rotate_FL d d1 ev1 HF Er) as (HF1 & Z1 & Z2 & Hc).
+      exists d1, ev1. split; [reflexivity|]. split; [exact HF1|]. split; [exact Hc|]. right. split; assumption.
+    - exists d, []. split; [reflexivity|]. split; [exact HF|]. split; [reflexivity|]. apply andb_false_iff in Erot. destruct Erot as [E|E].
+      + apply N.ltb_ge in E. right. assert (Hz : sz = 0) by lia. split; [exact Hz|].
+        destruct (proj1 (proj1 HF)) as [A|A]; [exact A|fold sz in A; lia].
+      + apply N.ltb_ge in E. left. exact E. }
+  destruct Hpre as (d1 & ev1 & Epre & HF1 & Hc & Hcase). rewrite Epre in Hf.
+  destruct (lf_append_all (io_of d1) (FData (d_active_id d1)) (d_active_id d1) (d_active d1) (map (tag (b_id b)) (b_staged b))) as [[a ps] ev2] eqn:Eapp.
+  destruct (lf_append_all_growth _ _ _ _ _ _ _ _ Htag Eapp) as (G1 & G2 & Gp & out & G3 & G4). rewrite sum_est_tag in G2.
+  assert (Hlen : length out = length (b_staged b)) by (rewrite <- (map_length fst out), G4, map_length; reflexivity).
+  assert (Hnil : out = [] -> lf_size a = lf_size (d_active d1)).
+  { intros E. subst out. cbn in G4. destruct (b_staged b); [cbn [sum_est] in G2; lia|discriminate]. }
+  assert (Hfa : FL fs a).
+  { apply (FL_after_append fs (d_active d1) a (sum_est (b_staged b)) out); try assumption.
+    - pose proof (proj1 HF1) as H1. rewrite Hc in H1. exact H1.
+    - intros Hne. apply Gp. intros E. apply Hne. destruct out; [reflexivity|]. rewrite <- G4 in E. discriminate.
+    - destruct Hcase as [A|[A B]]; [left; lia|]. destruct Hfit as [F|F]; [left; lia|right; split; [exact A|rewrite Hlen; exact F]]. }
+  assert (Hshape : b_staged b <> [] -> lf_size a + maxFinRecord <= fs \/ (exists x, lf_recs a = [x])).
+  { intros Hne. destruct Hcase as [A|[A B]]; [left; lia|]. destruct Hfit as [F|F]; [left; lia|].
+    right. rewrite G3, B. cbn [app]. destruct (b_staged b) as [|r0 [|r1 rest]]; [congruence| |cbn in F; lia].
+    destruct out as [|x [|y out]]; cbn in Hlen; try discriminate. exists x. reflexivity. }
+  set (a' := fst (if b_sync b then h_sync (FData (d_active_id d1)) a else (a, []))).
+  assert (Ha' : lf_recs a' = lf_recs a /\ lf_size a' = lf_size a) by (unfold a'; destruct (b_sync b); [apply h_sync_same|auto]).
+  destruct (if b_sync b then h_sync (FData (d_active_id d1)) a else (a, [])) as [a'' ev3] eqn:Es. cbn [fst] in a'. subst a'.
+  injection Hf as <- <- <-.
+  destruct (apply_staged_files (combine (map (tag (b_id b)) (b_staged b)) ps) (set_active d1 (d_active_id d1) a'')) as (A & B & C & D).
+  destruct Ha' as [Hr' Hs'].
+  split; [|split; [|split]].
+  - unfold FLdb. rewrite A, B, C. cbn [set_active d_active d_older d_cfg]. rewrite Hc. fold fs.
+    split; [exact (FL_same _ _ _ Hr' Hs' Hfa)|]. destruct HF1 as [_ Ho1]. rewrite Hc in Ho1. exact Ho1.
+  - rewrite C. cbn [set_active d_cfg]. exact Hc.
+  - reflexivity.
+  - intros Hne. rewrite A. cbn [set_active d_active]. rewrite Hs', Hr'. exact (Hshape Hne).
+Qed.
+
+Lemma batch_flush_rotate_FL d b d' b' evs : FLdb d -> BI (c_fsize (d_cfg d)) b -> batch_flush_rotate d b = (d', b', evs) ->
+  FLdb d' /\ d_cfg d' = d_cfg d /\ b' = mkBatch [] 0 (b_committed b) (b_sync b) (b_id b).
+Proof.
+  intros HF HB Hf. unfold batch_flush_rotate in Hf.
+  destruct (batch_flush d b) as [[d1 b1] ev1] eqn:Efl. destruct (batch_flush_FL _ _ _ _ _ HF HB Efl) as (HF1 & Hc1 & Hb1 & _).
+  destruct (db_rotate d1) as [d2 ev2] eqn:Er. destruct (db_rotate_FL _ _ _ HF1 Er) as (HF2 & _ & _ & Hc2).
+  injection Hf as <- <- _. split; [exact HF2|]. split; [congruence|exact Hb1].
+Qed.
+
+Lemma sum_est_app a b : sum_est (a ++ b) = sum_est a + sum_est b.
+Proof. induction a as [|r a IH]; cbn [app sum_est]; [reflexivity|]. rewrite IH. lia. Qed.
+
+Lemma staged_update_sum f : forall st k r, staged_find st k = Some r ->
+  sum_est (staged_update st k f) + rec_est r = sum_est st + rec_est (f r) /\
+  length (staged_update st k f) = length st /\ r_key r = k /\ rec_est r <= sum_est st /\
+  (forall P : record -> Prop, Forall P st -> P (f r) -> Forall P (staged_update st k f)) /\ In r st.
+Proof.
+  induction st as [|x st IH]; intros k r Hf; cbn [staged_find] in Hf; [discriminate|]. cbn [staged_update].
+  destruct (bytes_eqb (r_key x) k) eqn:E.
+  - injection Hf as <-. apply bytes_eqb_eq in E. cbn [sum_est length]. repeat split; try lia; try assumption.
+    + intros P HP Hfr. constructor; [exact Hfr|exact (Forall_inv_tail HP)].
+    + left. reflexivity.
+  - destruct (IH k r Hf) as (A & B & C & D & F & G). cbn [sum_est length]. repeat split; try lia; try assumption.
+    + intros P HP Hfr. constructor; [exact (Forall_inv HP)|apply F; [exact (Forall_inv_tail HP)|exact Hfr]].
+    + right. exact G.
+Qed.
+
+Definition empty_batch_of (b : batch) : batch := mkBatch [] 0 (b_committed b) (b_sync b) (b_id b).
+Lemma BI_one fs b r c : b_id b < 18446744073709551616 -> len (r_key r) + len (r_value r) <= kv_max -> rec_est r <= c ->
+  BI fs (with_staged (empty_batch_of b) [r] c).
+Proof.
+  intros Hid Hr Hc. unfold BI, with_staged, empty_batch_of. cbn [b_staged b_cached b_id sum_est length].
+  split; [lia|]. split; [right; lia|]. split; [constructor; [exact Hr|constructor]|exact Hid].
+Qed.
+
+Lemma rec_est_mk ty k v id : rec_est (mkRec ty k v id) = disk_size_estimate (len k) (len v).
+Proof. reflexivity. Qed.
+
+Lemma batch_put_FL d b k v d' b' e evs :
+  FLdb d -> BI (c_fsize (d_cfg d)) b -> kv_small k v -> batch_put d b k v = (d', b', e, evs) ->
+  FLdb d' /\ d_cfg d' = d_cfg d /\ BI (c_fsize (d_cfg d)) b'.
+Proof.
+  intros HF HB Hs Hp. unfold batch_put in Hp.
+  destruct (len k =? 0); [injection Hp as <- <- _ _; auto|].
+  destruct (b_committed b); [injection Hp as <- <- _ _; auto|].
+  set (fs := c_fsize (d_cfg d)) in *. pose proof HB as (Hsum & Hfit & Hsmall & Hid).
+  destruct (staged_find (b_staged b) k) as [r|] eqn:Efind.
+  - (* the key is staged already *)
+    destruct (staged_update_sum (fun r0 => mkRec rt_Normal (r_key r0) v 0) _ _ _ Efind) as (A & B & C & D & F & G).
+    set (old := disk_size_estimate (len (r_key r)) (len (r_value r))) in *.
+    set (new := disk_size_estimate (len k) (len v)) in *.
+    change (rec_est r) with old in A, D. rewrite rec_est_mk, C in A. fold new in A.
+    destruct (fs <? b_cached b + new - old + maxFinRecord) eqn:Ebig.
+    + destruct (batch_flush_rotate d b) as [[d1 b1] ev1] eqn:Efl.
+      destruct (batch_flush_rotate_FL _ _ _ _ _ HF HB Efl) as (HF1 & Hc1 & Hb1). injection Hp as <- <- _ _.
+      split; [exact HF1|]. split; [exact Hc1|]. subst b1. cbn [b_staged b_cached app].
+      apply (BI_one fs b (mkRec rt_Normal k v 0) new Hid); [exact Hs|rewrite rec_est_mk; fold new; lia].
+    + apply N.ltb_ge in Ebig. injection Hp as <- <- _ _. split; [exact HF|]. split; [reflexivity|].
+      unfold BI, with_staged. cbn [b_staged b_cached b_id]. split; [lia|]. split; [left; lia|]. split; [|exact Hid].
+      apply F; [exact Hsmall|]. cbn [r_key r_value]. rewrite C. exact Hs.
+  - set (size := disk_size_estimate (len k) (len v)) in *.
+    destruct (fs <? b_cached b + size + maxFinRecord) eqn:Ebig.
+    + destruct (batch_flush_rotate d b) as [[d1 b1] ev1] eqn:Efl.
+      destruct (batch_flush_rotate_FL _ _ _ _ _ HF HB Efl) as (HF1 & Hc1 & Hb1). injection Hp as <- <- _ _.
+      split; [exact HF1|]. split; [exact Hc1|]. subst b1. cbn [b_staged b_cached app].
+      apply (BI_one fs b (mkRec rt_Normal k v 0) (0 + size) Hid); [exact Hs|rewrite rec_est_mk; fold size; lia].
+    + apply N.ltb_ge in Ebig. injection Hp as <- <- _ _. split; [exact HF|]. split; [reflexivity|].
+      unfold BI, with_staged. cbn [b_staged b_cached b_id]. rewrite sum_est_app. cbn [sum_est]. rewrite rec_est_mk. fold size.
+      split; [lia|]. split; [left; lia|]. split; [|exact Hid].
+      apply Forall_app. split; [exact Hsmall|constructor; [exact Hs|constructor]].
+Qed.
+
+Lemma est_mono k v v' : v' <= v -> disk_size_estimate k v' <= disk_size_estimate k v.
+Proof. intros H. rewrite !estimate_is_est_kv. apply est_kv_mono. lia. Qed.
+
+Lemma batch_delete_FL d b k d' b' e evs :
+  FLdb d -> BI (c_fsize (d_cfg d)) b -> len k <= kv_max -> batch_delete d b k = (d', b', e, evs) ->
+  FLdb d' /\ d_cfg d' = d_cfg d /\ BI (c_fsize (d_cfg d)) b'.
+Proof.
+  intros HF HB Hs Hp. unfold batch_delete in Hp.
+  destruct (len k =? 0); [injection Hp as <- <- _ _; auto|].
+  destruct (b_committed b); [injection Hp as <- <- _ _; auto|].
+  set (fs := c_fsize (d_cfg d)) in *. pose proof HB as (Hsum & Hfit & Hsmall & Hid).
+  destruct (staged_find (b_staged b) k) as [r|] eqn:Efind.
+  - destruct (staged_update_sum (fun r0 => mkRec rt_Deleted (r_key r0) [] 0) _ _ _ Efind) as (A & B & C & D & F & G).
+    injection Hp as <- <- _ _. split; [exact HF|]. split; [reflexivity|].
+    assert (Hle : rec_est (mkRec rt_Deleted (r_key r) [] 0) <= rec_est r).
+    { rewrite rec_est_mk. unfold rec_est. apply est_mono. rewrite len_nil. lia. }
+    unfold BI, with_staged. cbn [b_staged b_cached b_id]. split; [lia|]. split; [|split; [|exact Hid]].
+    + destruct Hfit as [Hf|Hf]; [left; lia|right; rewrite B; exact Hf].
+    + apply F; [exact Hsmall|]. cbn [r_key r_value]. rewrite len_nil.
+      rewrite Forall_forall in Hsmall. pose proof (Hsmall r G). lia.
+  - destruct (idx_get (d_index d) k) as [p0|]; [|injection Hp as <- <- _ _; auto].
+    set (size := disk_size_estimate (len k) 0) in *.
+    assert (Hkv : len k + len (@nil byte) <= kv_max) by (rewrite len_nil; lia).
+    destruct (fs <? b_cached b + size + maxFinRecord) eqn:Ebig.
+    + destruct (batch_flush_rotate d b) as [[d1 b1] ev1] eqn:Efl.
+      destruct (batch_flush_rotate_FL _ _ _ _ _ HF HB Efl) as (HF1 & Hc1 & Hb1). injection Hp as <- <- _ _.
+      split; [exact HF1|]. split; [exact Hc1|]. subst b1. cbn [b_staged b_cached app].
+      apply (BI_one fs b (mkRec rt_Deleted k [] 0) (0 + size) Hid); [exact Hkv|rewrite rec_est_mk, len_nil; fold size; lia].
+    + apply N.ltb_ge in Ebig. injection Hp as <- <- _ _. split; [exact HF|]. split; [reflexivity|].
+      unfold BI, with_staged. cbn [b_staged b_cached b_id]. rewrite sum_est_app. cbn [sum_est]. rewrite rec_est_mk, len_nil. fold size.
+      split; [lia|]. split; [left; lia|]. split; [|exact Hid].
+      apply Forall_app. split; [exact Hsmall|constructor; [exact Hkv|constructor]].
+Qed.
+
+Lemma batch_get_FL d b k d' v evs : FLdb d -> batch_get d b k = (d', v, evs) -> FLdb d' /\ d_cfg d' = d_cfg d.
+Proof.
+  intros HF Hg. unfold batch_get in Hg. destruct (len k =? 0); [injection Hg as <- _ _; auto|].
+  destruct (b_committed b); [injection Hg as <- _ _; auto|].
+  destruct (staged_find (b_staged b) k) as [r|].
+  - destruct (r_type r =? rt_Deleted); injection Hg as <- _ _; auto.
+  - destruct (idx_get (d_index d) k) as [p|]; [exact (db_read_FL _ _ _ _ _ HF Hg)|injection Hg as <- _ _; auto].
+Qed.
+
+(* ---- Commit: the sealing record ------------------------------------------------------------------------ *)
+Lemma dec_digits_fuel_len : forall m f x acc, x < 10 ^ N.of_nat (S m) -> len (dec_digits_fuel f x acc) <= len acc + N.of_nat (S m).
+Proof.
+  induction m as [|m IH]; intros f x acc Hx; destruct f as [|f]; cbn [dec_digits_fuel]; try lia.
+  - change (10 ^ N.of_nat 1) with 10 in Hx. destruct (x / 10 =? 0) eqn:E; [rewrite len_cons; lia|apply N.eqb_neq in E; lia].
+  - destruct (x / 10 =? 0) eqn:E; [rewrite len_cons; lia|].
+    assert (Hq : x / 10 < 10 ^ N.of_nat (S m)).
+    { replace (N.of_nat (S (S m))) with (N.succ (N.of_nat (S m))) in Hx by lia. rewrite N.pow_succ_r' in Hx.
+      apply N.div_lt_upper_bound; lia. }
+    pose proof (IH f (x / 10) ((48 + x mod 10) :: acc) Hq) as H. rewrite len_cons in H. lia.
+Qed.
+Lemma dec_digits_len id : id < 18446744073709551616 -> len (dec_digits id) <= 20.
+Proof.
+  intros H. unfold dec_digits. pose proof (dec_digits_fuel_len 19 25 id [] ltac:(eapply N.lt_le_trans; [exact H|vm_compute; discriminate])) as L.
+  rewrite len_nil in L. lia.
+Qed.
+
+Lemma seal_small id : id < 18446744073709551616 ->
+  rec_small (mkRec rt_BatchFinished (dec_digits id) [] id) /\ rec_est (mkRec rt_BatchFinished (dec_digits id) [] id) <= maxFinRecord.
+Proof.
+  intros H. pose proof (dec_digits_len id H) as L. split.
+  - split; [cbn [r_key r_value]; rewrite len_nil; unfold kv_max; lia|exact H].
+  - rewrite rec_est_mk, len_nil, estimate_is_est_kv. unfold est_kv. change maxFinRecord with 70. lia.
+Qed.
+
+Lemma batch_commit_FL d b d' b' e evs :
+  FLdb d -> BI (c_fsize (d_cfg d)) b -> batch_commit d b = (d', b', e, evs) -> FLdb d' /\ d_cfg d' = d_cfg d.
+Proof.
+  intros HF HB Hc. unfold batch_commit in Hc. destruct (b_committed b); [injection Hc as <- _ _ _; auto|].
+  destruct (b_staged b) as [|r0 rest] eqn:Est; [injection Hc as <- _ _ _; auto|].
+  set (bc := mkBatch (r0 :: rest) (b_cached b) true (b_sync b) (b_id b)) in *.
+  assert (HBc : BI (c_fsize (d_cfg d)) bc).
+  { destruct HB as (A & B & C & D). rewrite Est in *. unfold BI, bc. cbn [b_staged b_cached b_id]. auto. }
+  destruct (batch_flush d bc) as [[d1 b1] ev1] eqn:Efl.
+  destruct (batch_flush_FL _ _ _ _ _ HF HBc Efl) as (HF1 & Hc1 & _ & Hshape).
+  specialize (Hshape ltac:(unfold bc; cbn; discriminate)).
+  destruct HB as (_ & _ & _ & Hid). destruct (seal_small (b_id b) Hid) as [Hss Hse].
+  set (seal := mkRec rt_BatchFinished (dec_digits (b_id b)) [] (b_id b)) in *.
+  destruct (lf_append (io_of d1) (FData (d_active_id d1)) (d_active_id d1) (d_active d1) seal) as [[a p0] ev2] eqn:Eapp.
+  destruct (lf_append_growth _ _ _ _ _ _ _ _ Hss Eapp) as (G1 & G2 & G3 & G4).
+  assert (Hfa : FL (c_fsize (d_cfg d1)) a).
+  { rewrite Hc1. destruct Hshape as [Hroom|(x & Hx)].
+    - apply (FL_after_append _ (d_active d1) a (rec_est seal) [(seal, p0)]); try assumption.
+      + pose proof (proj1 HF1) as H1. rewrite Hc1 in H1. exact H1.
+      + intros _. exact G4.
+      + discriminate.
+      + left. lia.
+    - split; [right; exact G4|]. right. unfold single. rewrite G3, Hx. cbn [app]. reflexivity. }
+  set (a' := fst (if b_sync b then h_sync (FData (d_active_id d1)) a else (a, []))).
+  assert (Ha' : lf_recs a' = lf_recs a /\ lf_size a' = lf_size a) by (unfold a'; destruct (b_sync b); [apply h_sync_same|auto]).
+  destruct (if b_sync b then h_sync (FData (d_active_id d1)) a else (a, [])) as [a'' ev3] eqn:Es. cbn [fst] in a'. subst a'.
+  injection Hc as <- _ _ _. split; [|exact Hc1].
+  apply (FLdb_set_active d1 a'' HF1). exact (FL_same _ _ _ (proj1 Ha') (proj2 Ha') Hfa).
+Qed.
+
+(* ---- Merge: the live database only rotates its active file and reads its older files ------------------ *)
+Lemma scan_touch_same io nm f : lf_recs (fst (scan_touch io nm f)) = lf_recs f /\ lf_size (fst (scan_touch io nm f)) = lf_size f.
+Proof. unfold scan_touch. destruct (lf_size f =? 0); [auto|apply h_read_same]. Qed.
+
+Lemma merge_files_FL c : forall order d nm m d' res evs,
+  FLdb d -> merge_files c d order nm m = (d', res, evs) -> FLdb d' /\ d_cfg d' = d_cfg d.
+Proof.
+  induction order as [|fid order IH]; intros d nm m d' res evs HF Hm; cbn [merge_files] in Hm; [injection Hm as <- _ _; auto|].
+  destruct (older_get (d_older d) fid) as [f|] eqn:Eg; [|exact (IH _ _ _ _ _ _ HF Hm)].
+  destruct (scan_touch_same (c_io c) (FData fid) f) as [S1 S2].
+  destruct (scan_touch (c_io c) (FData fid) f) as [f' ev0]. cbn [fst] in *.
+  set (d1 := set_older d (older_set (d_older d) fid f')) in *.
+  assert (HF1 : FLdb d1).
+  { destruct HF as [Ha Ho]. split; [exact Ha|]. unfold d1. cbn [d_older set_older d_cfg]. intros i g Hin. apply in_older_set in Hin.
+    destruct Hin as [E|Hin]; [|exact (Ho i g Hin)]. injection E as -> ->.
+    exact (FL_same _ _ _ S1 S2 (Ho _ _ (older_get_in _ _ _ Eg))). }
+  destruct (merge_file c (d_index d1) fid nm m (lf_recs f')) as [r1 ev1].
+  destruct r1 as [m'|e m'].
+  - destruct (merge_files c d1 order nm m') as [[d2 res2] ev2] eqn:E2. destruct (IH _ _ _ _ _ _ HF1 E2) as (HF2 & Hc2).
+    injection Hm as <- _ _. split; [exact HF2|exact Hc2].
+  - injection Hm as <- _ _. split; [exact HF1|reflexivity].
+Qed.
+
+Lemma db_merge_FL d k order d' k' e evs : FLdb d -> db_merge d k order = (d', k', e, evs) -> FLdb d' /\ d_cfg d' = d_cfg d.
+Proof.
+  intros HF Hm. unfold db_merge in Hm.
+  destruct (db_rotate d) as [d1 ev1] eqn:Er. destruct (db_rotate_FL _ _ _ HF Er) as (HF1 & _ & _ & Hc1).
+  destruct (h_open (c_io (d_cfg d)) (MData 0) false lf_empty) as [a0 ev3].
+  destruct (hf_open_new (c_io (d_cfg d))) as [h0 ev4].
+  destruct (merge_files (d_cfg d) d1 order (d_active_id d1) (mkMs 0 a0 [] h0)) as [[d2 res] ev5] eqn:Emf.
+  destruct (merge_files_FL _ _ _ _ _ _ _ _ HF1 Emf) as (HF2 & Hc2).
+  destruct res as [m|err m].
+  - destruct (hf_close (c_io (d_cfg d)) (ms_hint m)) as [h1 ev6].
+    destruct (h_close (c_io (d_cfg d)) (MData (ms_active_id m)) (ms_active m)) as [a1 ev7].
+    destruct (ms_close_older (c_io (d_cfg d)) (ms_older m)) as [o1 ev8].
+    destruct (db_sync d2) as [d3 evS] eqn:Es. destruct (db_sync_FL _ _ _ HF2 Es) as (HF3 & Hc3).
+    injection Hm as <- _ _ _. split; [exact HF3|congruence].
+  - injection Hm as <- _ _ _. split; [exact HF2|congruence].
+Qed.
+
+(* ---- scripts ------------------------------------------------------------------------------------------- *)
+Definition bop_small (o : bop) : Prop :=
+  match o with BPut k v => kv_small k v | BDel k => len k <= kv_max | BGet _ => True end.
+Definition op_small (o : op) : Prop :=
+  match o with
+  | OpPut k v => kv_small k v
+  | OpDel k => len k <= kv_max
+  | OpBatch _ id bops => id < 18446744073709551616 /\ Forall bop_small bops
+  | OpRestart _ => False
+  | _ => True
+  end.
+
+Lemma run_bops_FL : forall bops d b d' b' rs evs,
+  FLdb d -> BI (c_fsize (d_cfg d)) b -> Forall bop_small bops -> run_bops d b bops = (d', b', rs, evs) ->
+  FLdb d' /\ d_cfg d' = d_cfg d /\ BI (c_fsize (d_cfg d)) b'.
+Proof.
+  induction bops as [|o bops IH]; intros d b d' b' rs evs HF HB Hs Hr; cbn [run_bops] in Hr; [injection Hr as <- <- _ _; auto|].
+  pose proof (Forall_inv Hs) as Ho. pose proof (Forall_inv_tail Hs) as Hrest. destruct o as [k v|k|k].
+  - destruct (batch_put d b k v) as [[[d1 b1] e] ev1] eqn:E1. destruct (batch_put_FL _ _ _ _ _ _ _ _ HF HB Ho E1) as (HF1 & Hc1 & HB1).
+    destruct (run_bops d1 b1 bops) as [[[d2 b2] rs2] ev2] eqn:E2. rewrite <- Hc1 in HB1.
+    destruct (IH _ _ _ _ _ _ HF1 HB1 Hrest E2) as (HF2 & Hc2 & HB2). injection Hr as <- <- _ _.
+    split; [exact HF2|]. split; [congruence|rewrite <- Hc1; exact HB2].
+  - destruct (batch_delete d b k) as [[[d1 b1] e] ev1] eqn:E1. destruct (batch_delete_FL _ _ _ _ _ _ _ HF HB Ho E1) as (HF1 & Hc1 & HB1).
+    destruct (run_bops d1 b1 bops) as [[[d2 b2] rs2] ev2] eqn:E2. rewrite <- Hc1 in HB1.
+    destruct (IH _ _ _ _ _ _ HF1 HB1 Hrest E2) as (HF2 & Hc2 & HB2). injection Hr as <- <- _ _.
+    split; [exact HF2|]. split; [congruence|rewrite <- Hc1; exact HB2].
+  - destruct (batch_get d b k) as [[d1 v] ev1] eqn:E1. destruct (batch_get_FL _ _ _ _ _ _ HF E1) as (HF1 & Hc1).
+    destruct (run_bops d1 b bops) as [[[d2 b2] rs2] ev2] eqn:E2. rewrite <- Hc1 in HB.
+    destruct (IH _ _ _ _ _ _ HF1 HB Hrest E2) as (HF2 & Hc2 & HB2). injection Hr as <- <- _ _.
+    split; [exact HF2|]. split; [congruence|rewrite <- Hc1; exact HB2].
+Qed.
+
+Lemma step_FL d k o d' k' r evs : FLdb d -> op_small o -> step (d, k) o = ((d', k'), r, evs) -> FLdb d' /\ d_cfg d' = d_cfg d.
+Proof.
+  intros HF Ho Hs. unfold step in Hs. destruct o as [key v|key|key| | | | |sync id bops|order|c]; cbn [op_small] in Ho; try contradiction.
+  - destruct (db_put d key v) as [[d1 e] ev] eqn:E. injection Hs as <- _ _ _. exact (db_put_FL _ _ _ _ _ _ HF Ho E).
+  - destruct (db_get d key) as [[d1 v] ev] eqn:E. injection Hs as <- _ _ _. exact (db_get_FL _ _ _ _ _ HF E).
+  - destruct (db_delete d key) as [[d1 e] ev] eqn:E. injection Hs as <- _ _ _. exact (db_delete_FL _ _ _ _ _ HF Ho E).
+  - injection Hs as <- _ _ _. auto.
+  - destruct (db_fold d) as [[d1 rr] ev] eqn:E. injection Hs as <- _ _ _. exact (db_fold_aux_FL _ _ _ _ _ HF E).
+  - destruct (db_stat d) as [[[kn fn] rc] tot]. injection Hs as <- _ _ _. auto.
+  - destruct (db_sync d) as [d1 ev] eqn:E. injection Hs as <- _ _ _. exact (db_sync_FL _ _ _ HF E).
+  - destruct Ho as [Hid Hb].
+    assert (HB0 : BI (c_fsize (d_cfg d)) (new_batch sync id)).
+    { unfold BI, new_batch. cbn [b_staged b_cached b_id sum_est length]. split; [lia|]. split; [right; lia|]. split; [constructor|exact Hid]. }
+    destruct (run_bops d (new_batch sync id) bops) as [[[d1 b1] rs] ev1] eqn:E1.
+    destruct (run_bops_FL _ _ _ _ _ _ _ HF HB0 Hb E1) as (HF1 & Hc1 & HB1).
+    destruct (batch_commit d1 b1) as [[[d2 b2] e] ev2] eqn:E2. rewrite <- Hc1 in HB1.
+    destruct (batch_commit_FL _ _ _ _ _ _ HF1 HB1 E2) as (HF2 & Hc2). injection Hs as <- _ _ _. split; [exact HF2|congruence].
+  - destruct (db_merge d k order) as [[[d1 k1] e] ev] eqn:E. injection Hs as <- _ _ _. exact (db_merge_FL _ _ _ _ _ _ _ HF E).
+Qed.
+
+Theorem files_respect_the_limit : forall ops d k d' k' rs evs,
+  FLdb d -> Forall op_small ops -> run (d, k) ops = ((d', k'), rs, evs) -> FLdb d' /\ d_cfg d' = d_cfg d.
+Proof.
+  induction ops as [|o ops IH]; intros d k d' k' rs evs HF Hs Hr; cbn [run] in Hr; [injection Hr as <- _ _ _; auto|].
+  destruct (step (d, k) o) as [[[d1 k1] r] ev1] eqn:E1.
+  destruct (step_FL _ _ _ _ _ _ _ HF (Forall_inv Hs) E1) as (HF1 & Hc1).
+  destruct (run (d1, k1) ops) as [[[d2 k2] rs2] ev2] eqn:E2.
+  destruct (IH _ _ _ _ _ _ HF1 (Forall_inv_tail Hs) E2) as (HF2 & Hc2). injection Hr as <- _ _ _. split; [exact HF2|congruence].
+Qed.
+
+Lemma open_empty_FL c d k evs : db_open c empty_disk = (OpenOk d k, evs) -> FLdb d /\ d_cfg d = c.
+Proof.
+  unfold db_open, empty_disk. cbn [load_merge_files k_merge k_data open_all].
+  cbn [N.ltb N.compare]. cbn -[h_open db_rotate].
+  pose proof (h_open_new (c_io c) (FData 0)) as [Hr Hs].
+  destruct (h_open (c_io c) (FData 0) false lf_empty) as [n ev] eqn:Ho. cbn [fst] in *.
+  intros H. injection H as <- _ _. cbn [d_cfg]. split; [|reflexivity].
+  split; cbn [d_active d_older d_cfg].
+  - split; [left; exact Hr|left; rewrite Hs; lia].
+  - intros i f [].
+Qed.
+
+(* from an empty directory: at every step of every history without a restart every data file respects the limit *)
+Theorem limit_from_empty c ops d0 k0 e0 d k rs evs :
+  db_open c empty_disk = (OpenOk d0 k0, e0) -> Forall op_small ops -> run (d0, k0) ops = ((d, k), rs, evs) ->
+  (lf_size (d_active d) <= c_fsize c \/ single (d_active d)) /\
+  (forall i f, In (i, f) (d_older d) -> lf_size f <= c_fsize c \/ single f).
+Proof.
+  intros Ho Hs Hr. destruct (open_empty_FL _ _ _ _ Ho) as [HF Hc].
+  destruct (files_respect_the_limit _ _ _ _ _ _ _ HF Hs Hr) as [[Ha Hold] Hc2]. rewrite Hc2, Hc in *.
+  split; [exact (proj2 Ha)|]. intros i f Hin. exact (proj2 (Hold i f Hin)).
+Qed.
